@@ -1,6 +1,6 @@
 """Per-property static text used in the evidence files (levels, assumptions, explanations)."""
 
-LEVELS = {"C11": "other", "C20": "other", "C01": "other", "C03": "other", "C05": "other", "C07": "other", "C13": "other", "C14": "exploration", "C15": "other", "C16": "other", "C18": "other"}  # property -> evidence level; default 'proof'
+LEVELS = {"C11": "other", "C20": "other", "C01": "other", "C03": "other", "C05": "other", "C07": "other", "C13": "other", "C14": "other", "C15": "other", "C16": "other", "C18": "other"}  # property -> evidence level; default 'proof'
 
 TRUSTED_COMMON = [
     "pyvc engine (this repository's own VC generator over Python's ast module): its model of Python semantics for the subset used",
@@ -15,11 +15,17 @@ ASSUMPTIONS_COMMON = [
     "the universe of argument type-cases is the list of scenarios named in coverage.functions / the contract files under /verif/contracts",
 ]
 
-PROP_ASSUMPTIONS = {}
+PROP_ASSUMPTIONS = {
+    "C14": ["numpy.exp / numpy.log are uninterpreted real functions; numpy.linspace(a, b, n)[i] = a + i(b-a)/(n-1); numpy.round(x, 0) / numpy.ceil(x) are the nearest (ties to even) / least integer over the reals",
+            "the planning loops are proved for concrete plate sizes only (1x1, 2x2; thorough 1x3); to_worklist and the draw budget are not under contract"],
+    "C15": ["numpy.random.RandomState(seed).permutation(x): the k-th call returns x rearranged by a bijection of range(len(x)) that depends on (seed, k, len(x)) only (assumed library contract; which bijection is unspecified)",
+            "wf(randomizer) is established deductively for plates of at most 2x3 wells only; the method contracts assume it for every shape"],
+}
 EXPLAIN = {
     "C05": "Mixed: combine_composition, the composition branch of Labware.add, get_well_composition, the removal frame, the initial naming (get_initial_composition, get_trough_component_names, Trough.__init__ on small concrete shapes) are proved together with the mixing-algebra lemmas (coverage.obligations/discharged); operation histories, conservation across labware and naming on larger shapes are explored by the bounded exact-arithmetic monitor (coverage.bounded).",
     "C18": "Mixed: optimize_partition_by (all cases) and partition_by_column for 0-3 symbolic triples are proved (coverage.obligations/discharged); longer lists are explored by the bounded monitor (coverage.bounded).",
-    "C15": "Mixed: WellShifter and WellRotator are proved (coverage.obligations/discharged, incl. inverse lemmas); WellRandomizer is explored by the bounded monitor (coverage.bounded).",
+    "C15": "Mixed: WellShifter and WellRotator are proved (coverage.obligations/discharged, incl. inverse lemmas); WellRandomizer.randomize_wells/derandomize_wells are proved for every plate shape relative to wf(randomizer), which the constructor contract establishes for small concrete plates with the RandomState permutation an arbitrary seed-determined bijection (assumed library contract); larger plates and real seeds are explored by the bounded monitor (coverage.bounded).",
+    "C14": "Mixed: the argument-validation prefix of DilutionPlan.__init__ (all arguments) and its planning loops for concrete 1x1 / 2x2 (thorough 1x3) plates with every real-valued argument symbolic are proved (coverage.obligations/discharged): whole bounded transfer volumes, sources, reported concentrations and totals; larger plans, the draw budget of source columns (known finding) and the execution by to_worklist are explored by the bounded monitor (coverage.bounded) and not counted as proved.",
     "C07": "Mixed: both transfer bodies are proved on 1-triple (quick) / 2-triple (thorough) symbolic shapes without splitting (coverage.obligations/discharged); longer lists, permutations, large-volume splitting and break records are explored by the bounded monitor (coverage.bounded).",
     "C16": "Mixed: syntactic relational obligations between the two transfer bodies, hierarchy and call-site obligations (backend 'ast') and the two refusing base methods (z3) are discharged deductively; operation programs on both devices are compared by the bounded differential monitor (coverage.bounded).",
     "C13": "Mixed: commands.evo_aspirate/evo_dispense (1-2 wells), evo_wash, require_single_column_selection (any shape) and the EvoWorklist.evo_* methods are proved against the EVOware rope of their arguments, the tracked update and the step limit (coverage.obligations/discharged); longer lists and sessions are explored by the bounded monitor (coverage.bounded).",
